@@ -28,6 +28,10 @@ def make_case(ctx, ty, cnt, maxb):
     B = budget_elems(maxb, sz)
     init = [L.rand_val(ctx.rng, ty) for _ in range(cnt)]
     tag = dict(name='F', ty=ty, scalar=False, n=cnt, addr=None if ctx.rng.random() < 0.5 else (0x99, 1, 2), init=init)
+    if ty in ('REAL', 'LREAL') and ctx.rng.random() < 0.5:
+        # a floating-point tag whose backing list an application filled with Python ints ([0]*n, range(n)): still a REAL array
+        tag['init'] = [('i', ctx.rng.choice([0, 0, k, 20])) for k in range(cnt)]
+        tag['int_init'] = True
     other = dict(name='G', ty='INT', scalar=False, n=3, addr=None, init=[('i', 1), ('i', 2), ('i', 3)])
     reqs = []
     walks = []
@@ -138,6 +142,15 @@ def run(ctx):
             if nbad <= 2:
                 t = c[1][0]
                 ctx.violation(dict(tag_type=t['ty'], tag_length=t['n'], max_bytes=c[0], init=[list(v) for v in t['init']], transfer=res[0]), res[1])
+    # one transfer whose byte offsets need more than 16 bits: DINT[16600] moved completely at the default budget (137 fragments)
+    n = 16600
+    vals = [('i', (k * 7919) % 100003 - 50000) for k in range(n)]
+    big = (488, [dict(name='F', ty='DINT', scalar=False, n=n, addr=None, init=vals)], [])
+    res = adaptive_walks(big, [('read', 0, n, 0, 0), ('read', 16000, 600, 0, 0)])
+    cov['big_transfer_elements'] = n
+    if res is not None:
+        nbad += 1
+        ctx.violation(dict(tag_type='DINT', tag_length=n, max_bytes=488, transfer=res[0]), res[1])
     cov['impl_property_failures'] = nbad
     if dis:
         ci, ri, io, mo = dis[0]
